@@ -9,7 +9,8 @@
                                           read_front_matters, read_data (flush_block, flush_input without the
                                           read-card test, which is ReadQ.v), str.expandtabs(TABSIZE),
                                           truncation to get_max_line_length(version) with the warning path,
-                                          the "vertical format" check, block counter, has_non_comments,
+                                          the "vertical format" check, block counter (the top-level file is
+                                          read up to the end of its third block), has_non_comments,
                                           continue_input (which flush_input does NOT reset: its assignment is
                                           local to the nested function)
      Python str methods used there         strip / rstrip / lstrip / upper / startswith / endswith / split
@@ -198,8 +199,10 @@ Definition mk_input (bt : nat) (raw : list string) (lineno : nat) : input :=
 Definition flush (bt : nat) (raw : list string) (lineno : nat) : list input :=
   if nonempty raw then [mk_input bt raw lineno] else [].
 
-(* one step is one physical line; [lineno] = number of lines already read by this call *)
-Fixpoint rd_loop (w : nat) (ls : list string) (lineno bc bt : nat) (cont hnc : bool) (raw : list string)
+(* one step is one physical line; [lineno] = number of lines already read by this call;
+   [rec] = read_data's recursion argument (True for the files pulled in by read cards): the top-level file is
+   only read up to the blank line that ends its third block *)
+Fixpoint rd_loop (w : nat) (rec : bool) (ls : list string) (lineno bc bt : nat) (cont hnc : bool) (raw : list string)
   : list input * option rd_err :=
   match ls with
   | [] => (flush bt raw lineno, None)
@@ -210,8 +213,10 @@ Fixpoint rd_loop (w : nat) (ls : list string) (lineno bc bt : nat) (cont hnc : b
       if all_space line then
         let bc' := S bc in
         let bt' := if Nat.ltb bc' 3 then bc' else bt in
-        let (out, e) := rd_loop w r lineno' bc' bt' cont false [] in
-        (List.app (flush bt raw lineno') out, e)
+        if andb (Nat.leb 3 bc') (negb rec) then (flush bt raw lineno', None)
+        else
+          let (out, e) := rd_loop w rec r lineno' bc' bt' cont false [] in
+          (List.app (flush bt raw lineno') out, e)
       else
         let newinp := andb (negb (all_space (takeS BLANK_SPACE_CONTINUE line)))
                      (andb (negb cont) (andb (negb c) (andb hnc (nonempty raw)))) in
@@ -222,26 +227,34 @@ Fixpoint rd_loop (w : nat) (ls : list string) (lineno bc bt : nat) (cont hnc : b
         else
           let line' := takeS w line in
           let cont' := ends_with (String sp (String "&"%char (String nl ""))) line' in
-          let (out, e) := rd_loop w r lineno' bc bt cont' (orb hnc (negb c)) (List.app raw1 [rstrip line']) in
+          let (out, e) := rd_loop w rec r lineno' bc bt cont' (orb hnc (negb c)) (List.app raw1 [rstrip line']) in
           (List.app pre out, e)
   end.
 
+(* read_data(fh, version, block_type) : recursion defaults to False *)
 Definition read_data_from (w : nat) (bt : nat) (ls : list string) : list input * option rd_err :=
-  rd_loop w ls 0 0 bt false false [].
+  rd_loop w false ls 0 0 bt false false [].
+
+(* read_data(fh, version, block_type, True) : a file pulled in by a read card *)
+Definition read_data_sub_from (w : nat) (bt : nat) (ls : list string) : list input * option rd_err :=
+  rd_loop w true ls 0 0 bt false false [].
 
 Definition read_data (w : nat) (ls : list string) : list input := fst (read_data_from w 0 ls).
 
-(* LineOverRunWarning: one per processed line that is cut (blank lines and everything from the first
-   vertical-format line on are not processed) *)
-Fixpoint overrun_count (w : nat) (ls : list string) : nat :=
+(* LineOverRunWarning: one per processed line that is cut (blank lines, everything from the first
+   vertical-format line on and, in the top-level file, everything after the third block are not processed) *)
+Fixpoint overrun_from (w : nat) (rec : bool) (bc : nat) (ls : list string) : nat :=
   match ls with
   | [] => 0
   | l :: r =>
       let line := expandtabs TABSIZE l in
-      if all_space line then overrun_count w r
+      if all_space line then
+        (if andb (Nat.leb 3 (S bc)) (negb rec) then 0 else overrun_from w rec (S bc) r)
       else if andb (contains "#"%char (takeS BLANK_SPACE_CONTINUE line)) (negb (is_comment line)) then 0
-      else (if Nat.ltb w (String.length line) then 1 else 0) + overrun_count w r
+      else (if Nat.ltb w (String.length line) then 1 else 0) + overrun_from w rec bc r
   end.
+Definition overrun_count (w : nat) (ls : list string) : nat := overrun_from w false 0 ls.
+Definition overrun_count_sub (w : nat) (ls : list string) : nat := overrun_from w true 0 ls.
 
 (* whole top-level file, from its bytes *)
 Record file_result := mkFile {
@@ -442,7 +455,7 @@ Definition logical_input (i : input) : nat * list string := (i_bt i, flat_map li
 Definition logical (ins : list input) : list (nat * list string) := map logical_input ins.
 
 (* proposed repair C11-1 of read_data:
-       if not line_is_comment:
+       if not (line_is_comment and line[0:BLANK_SPACE_CONTINUE].strip()):
            continue_input = "$" not in line and line.rstrip().endswith(" &")
    instead of   continue_input = line.endswith(" &\n")   evaluated on every line *)
 Definition amp_data (line' : string) : bool :=
@@ -451,7 +464,7 @@ Definition amp_data (line' : string) : bool :=
 Definition amp_nl (line' : string) : bool :=
   ends_with (String sp (String "&"%char (String nl ""))) line'.
 
-Fixpoint rd_loop_fix (w : nat) (ls : list string) (lineno bc bt : nat) (cont hnc : bool) (raw : list string)
+Fixpoint rd_loop_fix (w : nat) (rec : bool) (ls : list string) (lineno bc bt : nat) (cont hnc : bool) (raw : list string)
   : list input * option rd_err :=
   match ls with
   | [] => (flush bt raw lineno, None)
@@ -462,8 +475,10 @@ Fixpoint rd_loop_fix (w : nat) (ls : list string) (lineno bc bt : nat) (cont hnc
       if all_space line then
         let bc' := S bc in
         let bt' := if Nat.ltb bc' 3 then bc' else bt in
-        let (out, e) := rd_loop_fix w r lineno' bc' bt' cont false [] in
-        (List.app (flush bt raw lineno') out, e)
+        if andb (Nat.leb 3 bc') (negb rec) then (flush bt raw lineno', None)
+        else
+          let (out, e) := rd_loop_fix w rec r lineno' bc' bt' cont false [] in
+          (List.app (flush bt raw lineno') out, e)
       else
         let newinp := andb (negb (all_space (takeS BLANK_SPACE_CONTINUE line)))
                      (andb (negb cont) (andb (negb c) (andb hnc (nonempty raw)))) in
@@ -473,13 +488,16 @@ Fixpoint rd_loop_fix (w : nat) (ls : list string) (lineno bc bt : nat) (cont hnc
         then (pre, Some UnsupportedFeature)
         else
           let line' := takeS w line in
-          let cont' := if c then cont else amp_data line' in
-          let (out, e) := rd_loop_fix w r lineno' bc bt cont' (orb hnc (negb c)) (List.app raw1 [rstrip line']) in
+          let cont' := if andb c (negb (all_space (takeS BLANK_SPACE_CONTINUE line))) then cont
+                       else amp_data line' in
+          let (out, e) := rd_loop_fix w rec r lineno' bc bt cont' (orb hnc (negb c)) (List.app raw1 [rstrip line']) in
           (List.app pre out, e)
   end.
 
 Definition read_data_fix_from (w : nat) (bt : nat) (ls : list string) : list input * option rd_err :=
-  rd_loop_fix w ls 0 0 bt false false [].
+  rd_loop_fix w false ls 0 0 bt false false [].
+Definition read_data_fix_sub_from (w : nat) (bt : nat) (ls : list string) : list input * option rd_err :=
+  rd_loop_fix w true ls 0 0 bt false false [].
 
 Definition read_file_fix (w : nat) (bytes : string) : file_result :=
   let fm := read_front_matters (file_lines bytes) in
@@ -498,7 +516,7 @@ Definition read_lines_fix (w : nat) (f : list string) : obs :=
   let (ins, e) := read_data_fix_from w 0 (f_rest fm) in (f_title fm, logical ins, e).
 
 (* the files on which the current continue_input computation agrees with the repaired one (cleaned lines):
-   no comment line ends in " &" or follows (directly or after other comment lines) a line continued by '&',
+   no comment line (is_comment, with its c in columns 1-5) ends in " &" or follows (directly or after other comment lines) a line continued by '&',
    a data line ends in " &" + LF exactly when it has no '$' and, trailing blanks dropped, ends in " &",
    and no block ends with a continued line *)
 Fixpoint amp_tidy_from (w : nat) (cont : bool) (ls : list string) : bool :=
@@ -512,7 +530,8 @@ Fixpoint amp_tidy_from (w : nat) (cont : bool) (ls : list string) : bool :=
         if andb (contains "#"%char (takeS BLANK_SPACE_CONTINUE line)) (negb c) then true
         else
           let line' := takeS w line in
-          if c then andb (negb cont) (andb (negb (amp_nl line')) (amp_tidy_from w false r))
+          if andb c (negb (all_space (takeS BLANK_SPACE_CONTINUE line)))
+          then andb (negb cont) (andb (negb (amp_nl line')) (amp_tidy_from w false r))
           else andb (Bool.eqb (amp_nl line') (amp_data line')) (amp_tidy_from w (amp_data line') r)
   end.
 
@@ -524,7 +543,8 @@ Definition within_limit (w : nat) (f : list string) : bool :=
 
 (* ================================================================== wire
    lines travel hex-encoded, joined by ',' ; "-" is the empty list
-     data <w> <bt> <hexbytes>     read_data on the cleaned lines of the bytes (a sub-file)
+     data <w> <bt> <hexbytes>     read_data(fh, version, bt) on the cleaned lines of the bytes
+     sub <w> <bt> <hexbytes>      read_data(fh, version, bt, True): a file pulled in by a read card
      file <w> <hexbytes>          whole top-level file
      filefix <w> <hexbytes>       the same with the reader carrying proposed repair C11-1
      spec <w> <hexbytes>          spec_cards on the cleaned lines after the front matter
@@ -555,6 +575,14 @@ Definition run_Lines (req : string) : string :=
           let ls := file_lines (hex_decode h) in
           let (ins, e) := read_data_from W B ls in
           show_inputs ins ++ " " ++ show_err e ++ " " ++ show_nat (overrun_count W ls)
+      | _, _ => "parse:err"
+      end
+  | ["sub"; w; bt; h] =>
+      match parse_nat w, parse_nat bt with
+      | Some W, Some B =>
+          let ls := file_lines (hex_decode h) in
+          let (ins, e) := read_data_sub_from W B ls in
+          show_inputs ins ++ " " ++ show_err e ++ " " ++ show_nat (overrun_count_sub W ls)
       | _, _ => "parse:err"
       end
   | ["file"; w; h] =>
